@@ -20,7 +20,7 @@ EXPLANATION = (
     "_pop_line_before_zid and _add_or_update_modify_date are verified against the specification of the stamped first line "
     "(YYMMDD inserted in front of the ZID, or replacing the date that is there; prefix kept) for every first line of a bounded "
     "number of fully symbolic words. "
-    "_update_zo_file - the write-back both handlers use - is verified over the file-system model: the page becomes exactly the old lines with the first line of every note to update passed through the line function (every other line byte-identical), only the page and the hash file change, and only the page's own hash entry is refreshed (pages <= 3 / 5 lines, <= 2 notes, lines / ZIDs / line numbers fully symbolic, line function and value getter uninterpreted; _get_file_hash_path / _write_file_hash_to_disk / _hash_file assumed). "
+    "_update_zo_file - the write-back both handlers use - is verified over the file-system model: the page becomes exactly the old lines with the first line of every note to update passed through the line function (every other line byte-identical), only the page and the hash file change, and only the page's own hash entry is refreshed (pages <= 3 / 4 lines, <= 2 notes, lines / ZIDs / line numbers fully symbolic, line function and value getter uninterpreted; _get_file_hash_path / _write_file_hash_to_disk / _hash_file assumed). "
     "Index/file agreement along whole histories and quiescence of an immediately "
     "following reindex are checked on generated and directed edit histories over frozen calendar days through the real "
     "ReindexDBCommand (bounded)."
